@@ -447,7 +447,7 @@ MANIFEST = {
                   'each listed history over one OutputPool returns term-for-term the Sample of the pool-free run; stored operations '
                   'are not re-invoked for held batches; the pool ends up with exactly the consumed batches and the values of a '
                   'fresh computation; foreign batch_size/seed are refused.',
-    'level_note': 'in-memory OutputPool only; 8 stored-node sets x 4 histories (thorough), batch_size 2, n=2, <=3 batches; shared '
+    'level_note': 'in-memory OutputPool with symbolic payload: 8 stored-node sets x 4 histories (thorough), batch_size 2, n=2, <=3 batches; shared '
                   'per-batch generator modelled by position-named draws; the unstored-stochastic-node-after-stored-simulator case '
-                  'is known finding C05/stochastic-after-loaded-stochastic. z3 trusted.',
+                  'is known finding C05/stochastic-after-loaded-stochastic; on-disk ArrayPool (real .npy files, pool close/open) with fixed concrete payload: script, stored set and batch size solver-chosen. z3 trusted.',
 }
